@@ -365,6 +365,7 @@ class World(object):
             'Error': self.bclasses['binascii.Error'],
         })
         mod('usb1', {k.split('.')[1]: self.bclasses[k] for k in self.bclasses if k.startswith('usb1.')})
+        mod('select', {'select': NativeFunc('select.select', _select)})
         mod('contextlib', {'contextmanager': NativeFunc('contextlib.contextmanager', _contextmanager)})
         mod('random', {
             'choice': NativeFunc('random.choice', _random_choice),
@@ -726,6 +727,13 @@ def _defaultdict(ex, a, k):
     return d
 
 
+def _select(ex, a, k):
+    """select.select(rlist, wlist, xlist[, timeout]): the first readable is ready, or nothing is (timeout)"""
+    if ex.branch(_nd_bool(ex, [], {})):       # recorded like nondet_bool(): the native replay answers the same
+        return STuple((a[0], SList([]), SList([])))
+    return STuple((SList([]), SList([]), SList([])))
+
+
 def _contextmanager(ex, a, k):
     f = a[0]
     if not isinstance(f, FuncVal):
@@ -761,6 +769,23 @@ def _unhexlify(ex, a, k):
             return SBytes.concrete(binascii.unhexlify(b))
         except binascii.Error as e:
             ex.throw('binascii.Error', str(e))
+    if isinstance(b, SBytes):
+        n = b.concrete_len()
+        if n is None or n > 16:
+            raise Unsupported('unhexlify of symbolic octets without a small concrete length')
+        if n % 2:
+            ex.throw('binascii.Error', 'Odd-length string')
+        snap = N.snapshot(b)
+
+        def ishex(t):
+            return z3.Or(z3.And(t >= 48, t <= 57), z3.And(t >= 65, t <= 70), z3.And(t >= 97, t <= 102))
+
+        def val(t):
+            return z3.If(t <= 57, t - 48, z3.If(t <= 70, t - 55, t - 87))
+        ts = [N._z(snap.at(i)) for i in range(n)]
+        if not ex.branch(mk_bool(z3.And([ishex(t) for t in ts]) if ts else z3.BoolVal(True))):
+            ex.throw('binascii.Error', 'Non-hexadecimal digit found')
+        return N.bytes_from_terms([z3.simplify(16 * val(ts[2 * i]) + val(ts[2 * i + 1])) for i in range(n // 2)])
     raise Unsupported('unhexlify symbolic')
 
 
